@@ -53,6 +53,8 @@ Definition obs_eqb (a b : cobs) : bool :=
   match a, b with
   | BUnit, BUnit | BIgnored, BIgnored | BFwdNone, BFwdNone | BOk, BOk | BErr, BErr => true
   | BAcks x, BAcks y => list_eqb Bool.eqb x y
+  | BClosed x, BClosed y => smap_eqb x y
+  | BAcksClosed x m, BAcksClosed y n => list_eqb Bool.eqb x y && smap_eqb m n
   | BBroken, _ | _, BBroken => false
   | BVal x, BVal y => option_eqb cval_eqb x y
   | BMap x, BMap y => smap_eqb x y
@@ -63,10 +65,10 @@ Definition obs_eqb (a b : cobs) : bool :=
 Definition case := (list cop * list cobs)%type.
 
 Definition model_run (ops : list cop) : list cobs :=
-  run cval crt VInt (VStr 0) (VStr 9) croute ops.
+  run cval crt VInt (VStr 0) (VStr 9) croute 3 ops.
 
 Definition spec_obs_run (ops : list cop) : list cobs :=
-  spec_run cval crt VInt (VStr 0) (VStr 9) croute ops.
+  spec_run cval crt VInt (VStr 0) (VStr 9) croute 3 ops.
 
 Definition agree (c : case) : bool := list_eqb obs_eqb (model_run (fst c)) (snd c).
 Definition monitor (c : case) : bool := list_eqb obs_eqb (spec_obs_run (fst c)) (snd c).
